@@ -536,8 +536,18 @@ def r_estimates(m, rep, R, part):
             rv = V(rule[1])
             hil = M(rv, 'head_is_left')
             oks, texts = [], []
+            # the neighbour comes from the cells that start where the expanded item ends / end where it starts (judged by
+            # the adjacency rule): under that, R.start is L.start + L.length, however the code spells the span's end
+            if E == L:
+                want_cell_ = ('mcall', V(m.chart), 'cells_starting_at', (ADD(M(E, 'start_of_span'), M(E, 'span_length')),))
+            else:
+                want_cell_ = ('mcall', V(m.chart), 'cells_ending_at', (M(E, 'start_of_span'),))
+            got_cell_ = expand_methods(cell[2], m) if cell[2] else None
+            adjacent = got_cell_ is not None and canon(got_cell_) == canon(want_cell_)
             for val, (head, child) in ((True, (L, Rr)), (False, (Rr, L))):
                 g = simplify_cond(got, {hil: val})
+                if adjacent:
+                    g = cxx.subst(g, {M(Rr, 'start_of_span'): ADD(M(L, 'start_of_span'), M(L, 'span_length'))})
                 start = M(L, 'start_of_span')
                 end = ADD(start, M(L, 'span_length'), M(Rr, 'span_length'))
                 if part == 'in':
@@ -793,6 +803,8 @@ def r_chart(m, rep, R):
         ok = len(p) == 1 and p[0][2] is not None and canon(p[0][2]) == canon(IDX(M(('this',), fld), V(a)))
         rep.check(ok, R, _w(fn.line, 'chart::' + name), 'chart:' + name, '%s(i) returns %s[i]' % (name, fld),
                   '%s(i) returns %s' % (name, canon(p[0][2]) if p and p[0][2] else '?'))
+    if getattr(m, 'goal_is_list', False):
+        return      # finished parses are kept in a standard container: its size() / empty() are the library's
     if getattr(m, 'goal_is_cell', False):
         # finished parses are kept in a bare cell: chart::size() is not what the search loop asks
         csz = cxx.method(cell, 'size')
@@ -989,7 +1001,8 @@ def r_backpointers(m, rep, R):
         rv = V(rule[1])
         want_range = ('deref', ('call', 'rules:binary', (M(L, 'cat'), M(Rr, 'cat'))))
         side = 'expanded-left' if E == L else 'neighbour-left'
-        rep.check(rule[2] is not None and canon(m.rules_call(rule[2])) == canon(want_range), R, s.where(), 'binary[%s]:rule-args' % side,
+        # (the lookup hands out a pointer to the cached results, or a reference to them)
+        rep.check(rule[2] is not None and canon(m.rules_call(rule[2])) in (canon(want_range), canon(want_range[1])), R, s.where(), 'binary[%s]:rule-args' % side,
                   'results come from apply_binary_rules(left.cat, right.cat) for the very items stored as left/right',
                   'rule loop ranges over %s, expected %s' % (canon(rule[2]) if rule[2] else '?', canon(want_range)))
         rep.check(other[2] is not None and canon(other[2]) == canon(('deref', V(cell[1]))), R, s.where(),
@@ -1022,7 +1035,7 @@ def r_backpointers(m, rep, R):
         Lp = f['left']
         ranges = [c for c in s.ctx if c[0] == 'range']
         ok = bool(ranges) and ranges[-1][2] is not None and \
-            canon(m.rules_call(ranges[-1][2])) == canon(('deref', ('call', 'rules:unary', (M(Lp, 'cat'),))))
+            canon(m.rules_call(ranges[-1][2])) in (canon(('deref', ('call', 'rules:unary', (M(Lp, 'cat'),)))), canon(('call', 'rules:unary', (M(Lp, 'cat'),))))
         rep.check(ok, R, s.where(), 'unary:rule-args', 'unary results come from apply_unary_rules(child.cat) of the stored child',
                   'unary loop ranges over %s' % (canon(ranges[-1][2]) if ranges and ranges[-1][2] else '?'))
         rv = V(ranges[-1][1]) if ranges else V('?')
@@ -1254,9 +1267,10 @@ def _r_cache_core(m, rep, R, kind, cbparam, core_fn, core_name, bind, cache_term
               '%s cache is modified by %s' % (kind, [x[0] for x in muts]))
     P2 = Paths(fn2, env2)
     rets = [p_[2] for p_ in P2.paths]
-    good = {canon(('addr', ('mcall', cache, 'at', (K,))))}
+    good = {canon(('addr', ('mcall', cache, 'at', (K,)))), canon(('mcall', cache, 'at', (K,)))}      # a pointer to the entry, or a reference to it
     if itv is not None:
         good.add(canon(('addr', M(itv, 'second'))))
+        good.add(canon(M(itv, 'second')))
     ok = bool(rets) and all(r is not None and canon(r) in good for r in rets)
     rep.check(ok, R, w2, 'cache:%s:return' % kind, '%s lookup returns the stored vector for the key' % kind,
               '%s lookup returns %s' % (kind, [canon(r) if r else None for r in rets]))
@@ -1347,6 +1361,44 @@ def r_ids_not_ordered(m, rep, R):
         rep.ok(R, _w(m.ps.line), 'category ids are never ordered (%d ordering comparisons inspected): search order depends on scores only' % n)
 
 
+def _descending_sort(m, sort_node, senv, scope, target):
+    """is `sort_node` (<list>.sort(cmp)) a sort of `target` by descending score?  The comparator is a lambda written at
+    the call (or bound to a local of `scope`), or a function object of the header; what it decides is read off its
+    body over the orderings of the two items' scores.  -> (ok, detail)"""
+    from . import cmpeval
+    t = term(sort_node, senv)
+    if not t[3]:
+        return False, 'sort() without a comparator: ascending by operator<, the worst parse first'
+    if len(t[3]) != 1:
+        return False, 'sort called with %d arguments' % len(t[3])
+    cmp_fn = None
+    detail = 'no comparator'
+    lam = sort_node.find('LambdaExpr') or scope.find('LambdaExpr')
+    a_ = t[3][0]
+    while a_[0] == 'ctor' and len(a_[2]) == 1 and a_[2][0][0] == 'ctor':
+        a_ = a_[2][0]          # copies of the temporary
+    if a_[0] == 'ctor' and not a_[2]:
+        # a function object: items.sort(higher_score())
+        rname = (a_[1] or '').replace('parsing::', '').replace('struct ', '').replace('class ', '').replace('const ', '').strip()
+        rec = m.decls.get(rname)
+        if rec is not None and rec.kind == 'CXXRecordDecl':
+            ops = [k for k in rec.kids if k.kind == 'CXXMethodDecl' and k.name == 'operator()' and any(c.kind == 'CompoundStmt' for c in k.kids)]
+            cmp_fn = ops[0] if len(ops) == 1 else None
+            detail = 'comparator %s' % rname
+    elif len(lam) == 1:
+        cmp_fn = [k for k in lam[0].walk() if k.kind == 'CXXMethodDecl' and k.name == 'operator()'][0]
+        detail = 'comparator lambda'
+    if cmp_fn is None:
+        return False, detail
+    score = lambda v, s_: v[(s_, 'in_score')] + v[(s_, 'out_score')]
+
+    def spec(v):
+        l_, r_ = score(v, 'L'), score(v, 'R')
+        return None if l_ == r_ else l_ > r_
+    okc, why = cmpeval.judge_items(cmp_fn, spec)
+    return okc and t[1] == target, '%s on %s: %s' % (detail, show(t[1]), why)
+
+
 def r_nbest(m, rep, R):
     """sorted goal cell, finalizer over it in order with a fresh token counter, charts in n-best mode iff nbest > 1."""
     env = m.env
@@ -1388,11 +1440,13 @@ def r_nbest(m, rep, R):
                 cell_names.add(canon(V(d.name)))
     sort_i = fr_i = None
     fr = None
+    sort_node = None
     for i, st in enumerate(tail):
-        if st.kind == 'CXXMemberCallExpr':
+        if strip(st).kind == 'CXXMemberCallExpr':
             t = term(st, env)
-            if t[0] == 'mcall' and t[2] == 'sort' and not t[3] and canon(t[1]) in cell_names:
+            if t[0] == 'mcall' and t[2] == 'sort' and (not t[3] or getattr(m, 'goal_is_list', False)) and canon(t[1]) in cell_names:
                 sort_i = i
+                sort_node = strip(st)
         if st.kind == 'CXXForRangeStmt':
             fr_i, fr = i, st
     rep.check(sort_i is not None and fr_i is not None and sort_i < fr_i, R, _w(tail[0].line if tail else m.main_loop.line), 'nbest:sort-before-output',
@@ -1418,45 +1472,23 @@ def r_nbest(m, rep, R):
                     detail += '; the token counter is not a fresh 0 per goal item'
         rep.check(ok, R, _w(fr.line), 'nbest:finalize',
                   'every goal item is finalised in list order with a fresh token counter (%s)' % detail, detail)
-    # cell::sort comparator
+    # the order of the output: the goal list is sorted by descending score
     cell = [k for k in m.decls['chart'].walk() if k.kind == 'CXXRecordDecl' and k.name == 'cell' and cxx.fields_of(k)][0]
-    srt = cxx.method(cell, 'sort')
-    from . import cmpeval
-    ok = False
-    detail = 'no comparator'
-    senv = cxx.Env(srt)
-    sort_nodes = [n for n in srt.find('CXXMemberCallExpr') if strip(n.kids[0]).name == 'sort']
-    sorts = [term(n, senv) for n in sort_nodes]
-    cmp_fn = None
-    if len(sorts) == 1 and len(sorts[0][3]) == 1:
-        lam = sort_nodes[0].find('LambdaExpr') or srt.find('LambdaExpr')
-        a_ = sorts[0][3][0]
-        while a_[0] == 'ctor' and len(a_[2]) == 1 and a_[2][0][0] == 'ctor':
-            a_ = a_[2][0]          # copies of the temporary
-        if a_[0] == 'ctor' and not a_[2]:
-            # a function object: items.sort(higher_score())
-            rname = (a_[1] or '').replace('parsing::', '').replace('struct ', '').replace('class ', '').replace('const ', '').strip()
-            rec = m.decls.get(rname)
-            if rec is not None and rec.kind == 'CXXRecordDecl':
-                ops = [k for k in rec.kids if k.kind == 'CXXMethodDecl' and k.name == 'operator()' and any(c.kind == 'CompoundStmt' for c in k.kids)]
-                cmp_fn = ops[0] if len(ops) == 1 else None
-                detail = 'comparator %s' % rname
-        elif len(lam) == 1:
-            cmp_fn = [k for k in lam[0].walk() if k.kind == 'CXXMethodDecl' and k.name == 'operator()'][0]
-            detail = 'comparator lambda'
-    elif len(sorts) == 1 and not sorts[0][3]:
-        detail = 'items.sort() without a comparator: ascending by operator<, the worst parse first'
-    if cmp_fn is not None:
-        score = lambda v, s_: v[(s_, 'in_score')] + v[(s_, 'out_score')]
-
-        def spec(v):
-            l_, r_ = score(v, 'L'), score(v, 'R')
-            return None if l_ == r_ else l_ > r_
-        okc, why = cmpeval.judge_items(cmp_fn, spec)
-        ok = okc and sorts[0][1] == M(('this',), 'items')
-        detail = '%s on %s: %s' % (detail, [show(s_[1]) for s_ in sorts], why)
-    rep.check(ok, R, _w(srt.line, 'cell::sort'), 'nbest:sort-order',
-              'cell.sort() orders items by descending score (%s)' % detail, 'cell.sort(): ' + detail)
+    if getattr(m, 'goal_is_list', False):
+        # a plain list of finished items, sorted where it is used:  finished.sort(<comparator>)
+        ok, detail, line = False, 'the list of finished items is not sorted', m.main_loop.line
+        if sort_node is not None:
+            ok, detail = _descending_sort(m, sort_node, env, m.ps, V(m.goal))
+            line = sort_node.line
+        rep.check(ok, R, _w(line), 'nbest:sort-order', 'the finished items are ordered by descending score (%s)' % detail, 'sort of the finished items: ' + detail)
+    else:
+        srt = cxx.method(cell, 'sort')
+        sort_nodes = [n for n in srt.find('CXXMemberCallExpr') if strip(n.kids[0]).name == 'sort']
+        ok, detail = False, 'cell::sort() sorts %d times' % len(sort_nodes)
+        if len(sort_nodes) == 1:
+            ok, detail = _descending_sort(m, sort_nodes[0], cxx.Env(srt), srt, M(('this',), 'items'))
+        rep.check(ok, R, _w(srt.line, 'cell::sort'), 'nbest:sort-order',
+                  'cell.sort() orders items by descending score (%s)' % detail, 'cell.sort(): ' + detail)
     # begin/end iterate the item list
     for nm in ('begin', 'end'):
         fn = cxx.method(cell, nm)
